@@ -1,1 +1,142 @@
-From C12 Require Import Lemmas.
+(* C12/Props.v — property theorems only.  Each is closed by [exact] of a lemma from Lemmas.v /
+   FloatLemmas.v and followed by Print Assumptions (parsed by the check: must be "Closed under the
+   global context").  Satisfiability Examples (named ex_...) are at the end of Lemmas.v.
+
+   Property C12: validating a configuration section against its spec either returns a config in which
+   every key of the spec is present with a value of the declared type, or rejects; it never returns an
+   ill-typed or out-of-range value, never silently accepts an unknown key or drops a provided one, never
+   modifies the spec; time strings evaluate to value times unit for every accepted unit suffix.
+
+   The model is of the code with fixes/C12-*.patch applied.  gen/Time.v is regenerated from
+   utility_functions.py on every run: on the unfixed source the time theorems below do not go through.
+
+   Scope of the theorems (see NOTES.md): validator kinds str lstr int float num bool ms secs enum machine
+   pow2 bool_int list dict(no param) and their _or_token forms; item types single list set dict
+   event_handler; flat sections (nested lists of sub-configs only when absent).                      *)
+From Common Require Import Prelude.
+From Coq Require Import QArith.
+From C12 Require Import Base Model FloatLemmas Lemmas.
+From C12.gen Require Import Time.
+Open Scope Z_scope.
+
+(* validate_item never returns an ill-typed or out-of-range value: for EVERY validator string, machine and
+   input value (has_type: declared type incl. numeric range with IEEE <=, enum membership, device exists) *)
+Theorem validate_sound :
+  forall m validator item r, validate_item m validator item = Ok r -> has_type m validator r = true.
+Proof. exact validate_item_sound. Qed.
+Print Assumptions validate_sound.
+
+(* the same for a whole spec entry "type|validator|default": lists, sets, dicts and event-handler dicts are
+   normalised to containers whose every element / key / value is well typed; item = None means "absent"
+   (default filled in or "required" error) *)
+Theorem validate_config_item_sound :
+  forall m ty va de item r,
+    validate_config_item m ty va de item = Ok r -> has_item_type m ty va r = true.
+Proof. exact validate_config_item_sound. Qed.
+Print Assumptions validate_config_item_sound.
+
+(* a numeric range with at least one bound excludes NaN (the declared range is IEEE lo <= v <= hi) *)
+Theorem range_excludes_nan :
+  forall p0 p1 rest c p,
+    split_on 44 (c :: p) = p0 :: p1 :: rest ->
+    (zs_eqb p0 s_NONE_U = false \/ zs_eqb p1 s_NONE_U = false) ->
+    within (Some (c :: p)) FNaN = false.
+Proof. exact within_not_nan. Qed.
+Print Assumptions range_excludes_nan.
+
+(* an accepted section contains every non-private spec key, well typed (defaults filled in) *)
+Theorem validate_config_complete :
+  forall m allow_invalid sp kvs d,
+    NoDup (map fst sp) ->
+    validate_config m allow_invalid true sp (YDict kvs) = Ok (YDict d) ->
+    forall k ty va de, In (k, SItem ty va de) sp -> starts_underscore k = false ->
+      exists v, dict_get (YStr k) d = Some v /\ has_item_type m ty va v = true.
+Proof. exact validate_config_complete_l. Qed.
+Print Assumptions validate_config_complete.
+
+(* a key that is not in the spec (and not _private) is never silently accepted *)
+Theorem unknown_key_rejected :
+  forall m add_missing sp kvs k c v,
+    spec_has s_allow_others sp = false ->
+    In (YStr (c :: k), v) kvs -> spec_has (c :: k) sp = false -> c <> 95 ->
+    exists e, validate_config m false add_missing sp (YDict kvs) = Err e.
+Proof. exact unknown_key_rejected_l. Qed.
+Print Assumptions unknown_key_rejected.
+
+(* no provided key is dropped *)
+Theorem provided_key_kept :
+  forall m allow_invalid add_missing sp kvs d k v,
+    validate_config m allow_invalid add_missing sp (YDict kvs) = Ok (YDict d) ->
+    In (k, v) kvs -> key_eqb k k = true -> dict_has k d = true.
+Proof. exact provided_key_kept_l. Qed.
+Print Assumptions provided_key_kept.
+
+(* validate_config returns a dict or rejects *)
+Theorem validate_config_returns_dict :
+  forall m allow_invalid add_missing sp src r,
+    validate_config m allow_invalid add_missing sp src = Ok r -> exists d, r = YDict d.
+Proof. exact validate_config_dict. Qed.
+Print Assumptions validate_config_returns_dict.
+
+(* the spec store is not modified by a validation; the build_spec cache only ever holds fresh merges, so a
+   validation through the cache equals one against a freshly merged spec *)
+Theorem spec_unchanged :
+  forall m allow_invalid add_missing st names src,
+    st_specs (fst (validate_config_st m allow_invalid add_missing st names src)) = st_specs st /\
+    (cache_ok st -> cache_ok (fst (validate_config_st m allow_invalid add_missing st names src))) /\
+    (forall specs, cache_ok st -> lookup_specs st names = Some specs ->
+       snd (validate_config_st m allow_invalid add_missing st names src) =
+       validate_config m allow_invalid add_missing (build_spec specs) src).
+Proof.
+  intros. split; [apply spec_unchanged_l|]. split; [apply cache_ok_preserved|].
+  intros specs Hc Hl. apply store_result_fresh; assumption.
+Qed.
+Print Assumptions spec_unchanged.
+
+(* IEEE-754 binary64 round-to-nearest as modelled has relative error at most 2^-53 *)
+Theorem rnd53_relative_error : forall q, (Qabs.Qabs (rnd53 q - q) <= Qabs.Qabs q * U)%Q.
+Proof. exact rnd53_err. Qed.
+Print Assumptions rnd53_relative_error.
+
+(* FULL statement: for every accepted suffix u in {ms msec s sec m h d} (any letter case) and every decimal
+   text t, string_to_ms (t ++ u) = value(t) * unit(u).
+   PARTIAL: proved for texts t ending in a digit or '.', GIVEN that float() reads t as the binary64 nearest
+   to the rational x (the hypothesis on e_float_of_str; parse_float is validated against CPython by the
+   correspondence run, its reading of decimal text is not proved), x*unit a whole number of ms below 2^49.
+   The arithmetic int(round(float(t) * k1 [* k2])) of the TRANSLATED code is then exact. *)
+Theorem time_string_value_times_unit_partial :
+  forall b c suf unit x N,
+    is_num_end c = true -> unit_ms (upper suf) = Some unit ->
+    e_float_of_str (upper b ++ [c]) = Ok (fnum x) ->
+    (0 <= x)%Q -> (x * unit == inject_Z N)%Q -> N < 2 ^ 49 ->
+    string_to_ms (YStr ((b ++ [c]) ++ suf)) = Ok N.
+Proof. exact time_float_units. Qed.
+Print Assumptions time_string_value_times_unit_partial.
+
+(* ms and msec: the integer before the suffix, in any letter case ("200msec" is accepted) *)
+Theorem time_string_int_units :
+  forall b c suf N,
+    is_num_end c = true -> (upper suf = [77;83] \/ upper suf = [77;83;69;67]) ->
+    e_int_of_str (upper b ++ [c]) = Ok N ->
+    string_to_ms (YStr ((b ++ [c]) ++ suf)) = Ok N.
+Proof. exact time_int_units. Qed.
+Print Assumptions time_string_int_units.
+
+Theorem secs_is_ms_over_1000 :
+  forall s z, existsb is_alpha s = true -> string_to_ms (YStr s) = Ok z ->
+    string_to_secs (YStr s) = Ok (fdiv_pos (fl_of_Z z) 1000).
+Proof. exact secs_of_ms. Qed.
+Print Assumptions secs_is_ms_over_1000.
+
+(* why the fixes are needed: the expressions of the unfixed code violate the property (witnesses) *)
+Theorem time_trunc_variant_refuted :
+  exists (s : str) (N : Z),
+    e_float_of_str s = Ok (fnum (1001 # 1000)) /\ ((1001 # 1000) * (1000 # 1) == inject_Z N)%Q /\
+    r_int (r_fmul (e_float_of_str s) 1000) <> Ok N.
+Proof. exact time_trunc_variant_refuted_l. Qed.
+Print Assumptions time_trunc_variant_refuted.
+
+Theorem range_lt_variant_accepts_nan :
+  forall lo hi, fl_lt FNaN lo = false /\ fl_lt hi FNaN = false.
+Proof. exact range_lt_variant_accepts_nan_l. Qed.
+Print Assumptions range_lt_variant_accepts_nan.
